@@ -76,6 +76,19 @@ AtDone == phase = "done" =>
 \* the model is exactly the slice sequence: the same model results from partial_fit on those slices
 ModelIsSlices == \A i \in 1..Len(model) : model[i] = <<Steps[i].lo, Steps[i].hi>>
 
+\* The inductive invariant of AdvScheduleInd.tla (proved there by Apalache for unbounded parameters), mapped onto
+\* this specification's variables; TLC checks it here so that the two texts cannot drift apart unnoticed.
+IndMapped == LET B == Batches(cfg)  E == Epochs(cfg)  mi == cfg.mi  stop == cfg.stop  nCb == Len(Cbs) \div cfg.k IN
+   /\ 0 <= batch /\ batch < B /\ 0 <= epoch
+   /\ (E = 0 => phase = "done" /\ nIter = 0 /\ nCb = 0)
+   /\ (E > 0 => epoch < E)
+   /\ (phase = "train" => /\ nIter = epoch * B + batch /\ nCb = nIter
+                          /\ (mi = Unl \/ nIter < mi) /\ (stop = 0 \/ stop > nIter))
+   /\ (phase = "callback" => /\ nIter = epoch * B + batch + 1 /\ nCb = nIter - 1
+                             /\ (mi = Unl \/ nIter < mi) /\ (stop = 0 \/ stop >= nIter))
+   /\ (phase = "train" => /\ Lo < Hi /\ Hi <= cfg.n /\ (batch = B - 1 => Hi = cfg.n)
+                          /\ (batch + 1 < B => Hi = (batch + 1) * BS(cfg) /\ Hi < cfg.n))
+
 Obs == [cfg |-> cfg, n_iter |-> nIter, log |-> log]
 EmitInv == (Emit /\ phase = "done") => PrintT(ToJson(Obs))
 =============================================================================
